@@ -24,6 +24,10 @@ class Include(DirectivePlugin):
             attrs = dict(options)
             if "encoding" in attrs:
                 encoding = attrs["encoding"]
+            # the options become keyword arguments of the render function,
+            # next to the renderer and the text
+            attrs.pop("renderer", None)
+            attrs.pop("text", None)
         else:
             attrs = {}
 
